@@ -200,7 +200,8 @@ def run(ctx, chk):
         got_ev = h.events
         names = ["type with result id -> types.append_id", "constant with result id -> constants.append_id",
                  "type referring to an earlier type and constant -> types.append_id after both", "function definition lifted",
-                 "result-producing non-phi instruction -> ops.append", "op info (token, type of the result type)", "block appended with phi argument types and the last instruction as terminator"]
+                 "result-producing non-phi instruction -> ops.append", "op info (token, type of the result type)", "block appended with phi argument types and the last instruction as terminator",
+                 "result-producing instruction of the second block -> ops.append", "its op info", "second block appended without arguments (it has no phi)"]
         for k, (nm, w) in enumerate(zip(names, want_ev)):
             g = got_ev[k] if k < len(got_ev) else None
             chk.check(R2, g == w, "convert:event %d (%s)" % (k, nm), "on the abstract module the walk performs %s, expected %s" % (str(g)[:220], str(w)[:220]), WC,
